@@ -271,7 +271,7 @@ META = dict(
                 "decoders, multistream objects, repacketizers and float codec pairs of their own, started behind a barrier so that the first library call of the process is "
                 "concurrent; TLC (ParTrace) demands that each thread's log of return values and output digests equals the log of the same program run alone in a fresh process; "
                 "thorough repeats this under ThreadSanitizer and ASan/UBSan. Pair mode: two threads use objects the caller has related - a byte copy (memcpy of get_size bytes) of another object with history, or neighbours placed back to back in one arena at their get_size sizes - in strict turns and then freely, against the same set-up with only one of them used."),
-    level_note=("Trusted: TLC, Json module, binutils. The discriminating step is the inventory, which is symbol-level: memory reached through pointers from two objects (none "
+    level_note=("Trusted: TLC, Json module, binutils. The discriminating step is the inventory, which is symbol-level: memory reached through pointers from two objects (pair mode drives byte copies and arena neighbours in lock step for the object kinds it uses; otherwise none "
                 "exists by design: states hold offsets, tables are const) would only be seen by the concurrent runs / TSan on the schedules the OS happened to produce. The inventory "
                 "is of the x86-64 gcc prod configuration; NONTHREADSAFE_PSEUDOSTACK builds are outside the property. Thread-local sections are listed as shared cells (conservative)."),
 )
